@@ -39,4 +39,14 @@ TChain == << B(<<33>>, 10, FALSE), B(<<35>>, 20, FALSE), B(<<36>>, 30, FALSE), B
 T3 == << B(<<43>>,       0,  TRUE),
          B(<<109, 110>>, 0,  FALSE),
          B(<<42>>,       50, TRUE) >>
+(* TAdv: names that collide when written without separators: binary `at` + unary `an` = unary `atan`; binary `s` +  *)
+(* unary `n` = identifier `sn`; a constant `e`; a dual sign.                                                         *)
+TAdv == << B(<<97, 116>>, 0, FALSE),        \* 1 at
+           B(<<115>>, 50, TRUE),            \* 2 s
+           D(<<45>>, 50, FALSE),            \* 3 -
+           U(<<97, 110>>),                  \* 4 an
+           U(<<110>>),                      \* 5 n
+           U(<<97, 116, 97, 110>>),         \* 6 atan
+           K(<<101>>) >>                    \* 7 e
+
 =============================================================================
